@@ -244,15 +244,13 @@ class UpnpProfileDevice:
 
         if now is None:
             now = time.monotonic()
-        renewal_threshold = now - RESUBSCRIBE_TOLERANCE_SECS
 
-        _LOGGER.debug("Resubscribing to services with threshold %f", renewal_threshold)
+        _LOGGER.debug("Resubscribing to services at %f", now)
 
+        # Renew every subscription, also one that is long overdue: skipping it would
+        # keep it in the bookkeeping forever (never renewed, never reported) and make
+        # _resubscribe_loop iterate without ever awaiting.
         for sid, renewal_time in list(self._subscriptions.items()):
-            if renewal_time < renewal_threshold:
-                _LOGGER.debug("Skipping %s with renewal_time %f", sid, renewal_time)
-                continue
-
             _LOGGER.debug("Resubscribing to %s with renewal_time %f", sid, renewal_time)
             # Subscription is going to be changed, no matter what
             del self._subscriptions[sid]
